@@ -101,11 +101,11 @@ theorem mid_fields (c : Prop) [Decidable c] (p : Prop) [Decidable p] (old' smp' 
       = (if p then some smp' else a.next) := by
   by_cases hc : c <;> by_cases hp : p <;> simp [hc, hp, absOpen, absPush]
 
-theorem micro {st st' : State} {n L : Nat} {sp : Scan} {log : List Seg} (t : Nat) (ht : t < n) (ti : Nat) (hti : ti < n)
-    (g : GInv st n L sp) (tv : TInv (lpOf log) (abs st t) sp (10 * (trackCfg st.cfg t).clockRate))
+theorem micro {st st' : State} {n L : Nat} {sp : Scan} {lp : List PartTrack} (t : Nat) (ht : t < n) (ti : Nat) (hti : ti < n)
+    (g : GInv st n L sp) (tv : TInv lp (abs st t) sp (10 * (trackCfg st.cfg t).clockRate))
     (ra ch : Bool) (smp : Sample) (hr : fmp4Write st ti ra ch smp = (st', .ok)) :
     GInv st' n L (scanCore st.cfg t ti sp (AU.ofSample smp)) ∧ st'.cfg = st.cfg ∧
-    TInv (lpOf (obs t st st' log)) (abs st' t) (scanCore st.cfg t ti sp (AU.ofSample smp))
+    TInv (obsA (abs st t) (abs st' t) lp) (abs st' t) (scanCore st.cfg t ti sp (AU.ofSample smp))
       (10 * (trackCfg st.cfg t).clockRate) := by
   have hL : leadOf st.cfg = L := by rw [leadOf_eq_leadingIdx]; exact g.shape.leq
   have eff := fmp4Write_eff g.shape ti hti ra ch smp (decide (sp.leadN ≥ 2)) g.seg hr
@@ -115,7 +115,6 @@ theorem micro {st st' : State} {n L : Nat} {sp : Scan} {log : List Seg} (t : Nat
   generalize hsmp' : ({ smp with dts := smp.dts + 10 * (trackCfg st.cfg ti).clockRate } : Sample) = smp' at eff
   have hd : smp'.dts = (AU.ofSample smp).dts + 10 * (trackCfg st.cfg ti).clockRate := by subst hsmp'; rfl
   have hu : AU.ofSample smp' = shiftAU (10 * (trackCfg st.cfg ti).clockRate) (AU.ofSample smp) := by subst hsmp'; rfl
-  rw [lpOf_obs]
   cases eff with
   | dropNeg hneg e =>
     subst e
